@@ -12,7 +12,7 @@ import threading
 
 from .. import core, realcode
 
-OPS = ['P0', 'P1', 'P2', 'E0', 'E1', 'S+', 'S-', 'G', 'W']
+OPS = ['P0', 'P1', 'P2', 'P3', 'E0', 'E1', 'S+', 'S-', 'G', 'W']
 
 
 def books():
@@ -22,23 +22,43 @@ def books():
           ('Data', [[1.5, 'txt'], ['=A1*2', '=LEFT(B1,2)']])]
     # unsafe: python-like text in a constant cell (rejected while the check is enabled)
     b2 = [('Main', [[3, '=A1+2', 'eval(1)'], [6, '=A2/2', '=A1&"z"'], [1, '=SUM(A1:A3)', 2]])]
-    return [b0, b1, b2]
+    # the same template as b0 filled with other data: same formula text at the same cells, different constants
+    b3 = [('Main', [[4, '=A1+1', '=SUM(A1:B1)'], [2, '=A2*2', '=IF(A2>3,"big","small")'], ['y', None, '=B1&A3']]),
+          ('Other', [[11, 21], ['=Main!A1+A1', '=SUM(A1:B1)']])]
+    return [b0, b1, b2, b3]
 
 
 def sha(text):
     return 'T' + hashlib.sha256(text.encode('utf-8')).hexdigest()[:16]
 
 
-def fresh(m, path, entry, safety):
-    try:
-        p = m['Parser']().set_excel_file_path(path)
-        if not safety:
-            p.disable_safety_check()
-        if entry is not None:
-            p.set_entrypoint_cell(m['Cell'](*entry))
-        return sha(p.get_translation())
-    except Exception as e:  # noqa
-        return 'E' + core.exc_class(e)
+FRESH_SRC = """
+import hashlib, sys, warnings
+sys.path.insert(0, sys.argv[1]); sys.path.insert(0, %r)
+warnings.filterwarnings('ignore')
+from harness import core
+from excel2pycl import Parser, Cell
+path, entry, safety = sys.argv[2], sys.argv[3], sys.argv[4] == '1'
+try:
+    p = Parser().set_excel_file_path(path)
+    if not safety:
+        p.disable_safety_check()
+    if entry != '-':
+        p.set_entrypoint_cell(Cell(*[int(x) for x in entry.split(',')]))
+    print('T' + hashlib.sha256(p.get_translation().encode('utf-8')).hexdigest()[:16])
+except Exception as e:
+    print('E' + core.exc_class(e))
+""" % core.VERIF
+
+
+def fresh_all(combos):
+    """what a fresh parser in a FRESH PROCESS returns for each (path, entry, safety): the oracle must not share process state with the code under test"""
+    procs = []
+    for path, entry, safety in combos:
+        e = '-' if entry is None else ','.join(str(x) for x in entry)
+        procs.append(subprocess.Popen(['/venv/bin/python', '-c', FRESH_SRC, core.REPO, path, e, '1' if safety else '0'],
+                                      stdout=subprocess.PIPE, stderr=subprocess.DEVNULL, text=True))
+    return [p.communicate(timeout=600)[0].strip().splitlines()[-1] for p in procs]
 
 
 ENTRIES = [(0, 1, 1), (0, 2, 0)]
@@ -98,11 +118,9 @@ def run(tier, seed):
             p = os.path.join(d, 'wb%d.xlsx' % i)
             realcode.write_xlsx(p, b)
             paths.append(p)
-        table = []
-        for pi, p in enumerate(paths):
-            for ei, e in enumerate([None] + ENTRIES):
-                for s in (True, False):
-                    table.append((pi, ei, 1 if s else 0, fresh(m, p, e, s)))
+        keys = [(pi, ei, s) for pi in range(len(paths)) for ei in range(len(ENTRIES) + 1) for s in (True, False)]
+        res = fresh_all([(paths[pi], ([None] + ENTRIES)[ei], s) for pi, ei, s in keys])
+        table = [(pi, ei, 1 if s else 0, r) for (pi, ei, s), r in zip(keys, res)]
         chk.info['fresh_results'] = {'%d/%d/%d' % t[:3]: t[3] for t in table}
         tab = [str(len(table))] + [str(x) for t in table for x in t]
         seqs = []
@@ -117,6 +135,11 @@ def run(tier, seed):
                 for q1 in ('G', 'W'):
                     for q2 in ('G', 'W'):
                         seqs.append(['P0', c1, q1, c2, q2])
+        for i in range(4):          # a translation that fails (or not), then a retry without any change in between
+            for j in range(4):
+                for pre in ([], ['S-'], ['E0']):
+                    seqs.append(pre + ['P%d' % i, 'G', 'P%d' % j, 'G', 'G', 'W'])
+                    seqs.append(pre + ['P%d' % i, 'W', 'S+', 'P%d' % j, 'W', 'G'])
         nrand = 300 if tier == 'quick' else 4000
         for _ in range(nrand):
             n = rng.randint(4, 8)
@@ -143,7 +166,7 @@ def determinism(chk, tier, paths, d):
     seeds = ['0', '1', '7', 'random'] if tier == 'quick' else ['0', '1', '2', '3', '7', '42', '1234', 'random']
     jobs = []
     for hs in seeds:
-        for warm in ([], [paths[1]], [paths[2], paths[0]]):
+        for warm in ([], [paths[1]], [paths[2], paths[0]], [paths[3]], [paths[0], paths[3]]):
             env = dict(env_base, PYTHONHASHSEED=hs)
             jobs.append((hs, len(warm), subprocess.Popen(['/venv/bin/python', worker, core.REPO, ','.join(warm)] + paths,
                                                          stdout=subprocess.PIPE, stderr=subprocess.DEVNULL, text=True, env=env)))
